@@ -351,6 +351,33 @@ def singleton_axis_corpus(ctx):
             one_case(ctx, p, r, cfg, f"corpus.singleton-axis-{ax}", fixed=fixed)
 
 
+def many_blobs_corpus(ctx):
+    """a semantic pair with 20 (thorough: also 40) separate blobs, each predicted with its own offset, mirrored along each axis,
+    transposed and padded: the component numbers follow the scan order, so every transformation renumbers the instances
+    (products of instance numbers beyond 2^8 occur from a dozen instances on)"""
+    for rows, cols in (((4, 5),) if ctx.quick else ((4, 5), (5, 8))):
+        ref = np.zeros((rows * 8, cols * 10), np.uint8)
+        pred = np.zeros_like(ref)
+        k = 0
+        for i in range(rows):
+            for j in range(cols):
+                w = 3 + (k % 5)
+                h = 3 + (k % 3)
+                ref[i * 8 + 1:i * 8 + 1 + h, j * 10 + 1:j * 10 + 1 + w] = 1
+                pred[i * 8 + 1 + (k % 2):i * 8 + 1 + h, j * 10 + 2:j * 10 + 2 + w] = 1
+                k += 1
+        fixed = []
+        for desc, f in (({"flip": [0]}, lambda a: np.flip(a, 0)), ({"flip": [1]}, lambda a: np.flip(a, 1)), ({"flip": [0, 1]}, lambda a: np.flip(a, (0, 1))),
+                        ({"perm": [1, 0]}, lambda a: a.T), ({"pad": [[3, 0], [0, 5]]}, lambda a: np.pad(a, ((3, 0), (0, 5)))),
+                        ({"flip": [1], "perm": [1, 0]}, lambda a: np.flip(a, 1).T)):
+            fixed.append((np.ascontiguousarray(f(pred)), np.ascontiguousarray(f(ref)), dict(desc, layout="C", layout_ref="C")))
+        for cfg in (E.mk_cfg("SEMANTIC", ["IOU", "DSC", "RVD"], matcher=E.naive("IOU", (1, 4))),
+                    E.mk_cfg("SEMANTIC", ["IOU", "ASSD"], matcher=E.naive("DSC", (1, 4)), backend="cc3d"),
+                    E.mk_cfg("SEMANTIC", ["IOU", "DSC"], matcher=E.merge("IOU", (1, 4)))):
+            ctx.count("many_blobs_renumbered")
+            one_case(ctx, pred, ref, cfg, f"corpus.many-blobs-{rows * cols}", fixed=fixed)
+
+
 def special_pair(rng):
     """(a) a volume with an axis of length one whose blobs touch only across corners / edges; (b) a volume without
     any background voxel carrying two or three class values"""
@@ -396,6 +423,7 @@ def run_cases(ctx, n, tag):
 def run(ctx):
     corpus(ctx)
     singleton_axis_corpus(ctx)
+    many_blobs_corpus(ctx)
     huge_padding(ctx, ctx.scale(3, 12))
     big_canvas(ctx, ctx.scale(2, 8))
     big_instance(ctx, ctx.scale(1, 3))
